@@ -121,6 +121,37 @@ def gen_script(rng, cid, kind=None):
     return ops, meta, kind, ocap
 
 
+def reuse_scripts(first_cid):
+    """every order in which two (or three) of three (or four) attached devices leave, followed by as many arrivals plus one:
+    systematic, not sampled — id bookkeeping after out-of-order detaches"""
+    import itertools
+    out = []
+    cid = first_cid
+    for k in (3, 4):
+        for r in (2, 3):
+            for leave in itertools.permutations(range(k), r):
+                ops = ["case %d" % cid, "fan.new 4"]
+                meta = []
+                labels = ["c%d" % i for i in range(k + r + 1)]
+                for l in labels[:k]:
+                    ops.append("fan.spawn %s 1500" % l)
+                    meta.append(("spawn", l))
+                ops.append("fan.feed 3")
+                for i in leave:
+                    ops.append("fan.despawn c%d 1500" % i)
+                    meta.append(("despawn", "c%d" % i, False))
+                ops.append("fan.feed 2")
+                for l in labels[k:]:
+                    ops.append("fan.spawn %s 1500" % l)
+                    meta.append(("spawn", l))
+                    ops.append("fan.feed 1")
+                ops += ["fan.feed 5", "fan.sleep 40", "fan.report"]
+                meta.append(("report",))
+                out.append((ops, meta, "reuse", 4))
+                cid += 1
+    return out
+
+
 def contiguous_block(seq):
     return all(b == a + 1 for a, b in zip(seq, seq[1:]))
 
@@ -143,6 +174,7 @@ def run(prop, tier, seed, verdict):
     n = 192 if tier == "quick" else 3000
     fixed = ["plain", "stuck", "stuck-others", "churn", "reuse", "slow-resume"]
     scripts = [gen_script(rng, i, fixed[i] if i < len(fixed) else None) for i in range(n)]
+    scripts += reuse_scripts(len(scripts))
     nstress = 120 if tier == "quick" else 3000
     nrelay = 64 if tier == "quick" else 1500
     npipe = 48 if tier == "quick" else 600
@@ -211,6 +243,28 @@ def run(prop, tier, seed, verdict):
             if not contiguous_block(seq):
                 verdict.violation({"clause": "not-a-contiguous-block"}, {"ops": ops, "consumer": l, "received": seq,
                                                                           "what": "a consumer saw a gap, a duplicate or a reordering"}, True)
+        # scripts in which every consumer keeps reading: a device that is attached at the end has been given exactly the
+        # messages fed since its attachment, up to the last one (the calls of the script are sequential and settled)
+        if kind in ("plain", "churn", "reuse") and final:
+            fed, at_spawn, gone = 0, {}, set()
+            for o in ops:
+                t = o.split()
+                if t[0] == "fan.feed":
+                    fed += int(t[1])
+                elif t[0] == "fan.spawn":
+                    at_spawn[t[1]] = fed
+                elif t[0] == "fan.despawn":
+                    gone.add(t[1])
+            for l, v in final.items():
+                if l in gone or l not in at_spawn:
+                    continue
+                seq = [int(x) for x in v.split(",")] if v else []
+                counts["block"] += 1
+                if seq != list(range(at_spawn[l] + 1, fed + 1)):
+                    verdict.violation({"clause": "attached-device-missed-messages"},
+                                      {"ops": ops, "consumer": l, "received": seq, "expected": [at_spawn[l] + 1, fed],
+                                       "what": "a device that is still attached did not get every message that arrived since its attachment",
+                                       "implementation_output": gl}, True)
         # a consumer whose DespawnOutput has been called may or may not be given the messages dispatched after that call
         # (Go's select between the send and the leaving signal): for such consumers only prefix-compatibility is compared
         left = {m[1] for m in meta if m[0] == "despawn"}
